@@ -205,7 +205,8 @@ def normalise(call):
     return "multipart", c
 
 
-KW = [{}, {"headers": {"X": "1"}}, {"headers": {"Content-Type": "text/x", "A": "b"}, "timeout": 3}, {"timeout": 5}, {"headers": {"content-type": "application/custom+json"}}]
+KW = [{}, {"headers": {"X": "1"}}, {"headers": {"Content-Type": "text/x", "A": "b"}, "timeout": 3}, {"timeout": 5}, {"headers": {"content-type": "application/custom+json"}},
+      {"timeout": None, "auth": None}]  # explicit None is a value (no timeout, no auth), not "not given"
 KW_LOWER_CT = 4
 
 
